@@ -111,6 +111,11 @@ pub struct Client<S, T> {
     /// Mapping of client named prepared statement to rewritten parse messages
     prepared_statements: HashMap<String, (Arc<Parse>, u64)>,
 
+    /// Names given by Parse messages of the current batch that a plugin rejected:
+    /// they are forgotten when the batch is dropped, so that a later Bind or
+    /// Describe cannot have the statement prepared on a server.
+    rejected_statements: Vec<String>,
+
     /// Buffered extended protocol data
     extended_protocol_data_buffer: VecDeque<ExtendedProtocolData>,
 }
@@ -799,6 +804,7 @@ where
             shutdown,
             prepared_statements_enabled,
             prepared_statements: HashMap::new(),
+            rejected_statements: Vec::new(),
             extended_protocol_data_buffer: VecDeque::new(),
         })
     }
@@ -837,6 +843,7 @@ where
             shutdown,
             prepared_statements_enabled: false,
             prepared_statements: HashMap::new(),
+            rejected_statements: Vec::new(),
             extended_protocol_data_buffer: VecDeque::new(),
         })
     }
@@ -1009,6 +1016,8 @@ where
                         match query_router.parse(&message) {
                             Ok(ast) => {
                                 if let Ok(output) = query_router.execute_plugins(&ast).await {
+                                    self.note_rejected_parse(&output, &message);
+
                                     // A verdict on an earlier Parse of this batch stands.
                                     if matches!(plugin_output, None | Some(PluginOutput::Allow)) {
                                         plugin_output = Some(output);
@@ -1348,6 +1357,8 @@ where
                         if query_router.query_parser_enabled() {
                             if let Ok(ast) = query_router.parse(&message) {
                                 if let Ok(output) = query_router.execute_plugins(&ast).await {
+                                    self.note_rejected_parse(&output, &message);
+
                                     // A verdict on an earlier Parse of this batch stands.
                                     if matches!(plugin_output, None | Some(PluginOutput::Allow)) {
                                         plugin_output = Some(output);
@@ -1928,6 +1939,17 @@ where
         Ok(())
     }
 
+    /// Remember the statement name of a Parse that a plugin denied or intercepted.
+    fn note_rejected_parse(&mut self, output: &PluginOutput, message: &BytesMut) {
+        if self.prepared_statements_enabled
+            && matches!(output, PluginOutput::Deny(_) | PluginOutput::Intercept(_))
+        {
+            if let Ok(name) = Parse::get_name(message) {
+                self.rejected_statements.push(name);
+            }
+        }
+    }
+
     /// Rewrite the Bind (F) message to use the prepared statement name
     /// saved in the client cache.
     async fn buffer_bind(&mut self, message: BytesMut) -> Result<(), Error> {
@@ -2042,6 +2064,10 @@ where
     }
 
     fn reset_buffered_state(&mut self) {
+        for name in self.rejected_statements.drain(..) {
+            self.prepared_statements.remove(&name);
+        }
+
         self.buffer.clear();
         self.extended_protocol_data_buffer.clear();
         self.response_message_queue_buffer.clear();
